@@ -582,7 +582,9 @@ class MailboxSet(MailboxSetInterface[MailboxData]):
     async def add_mailbox(self, name: str) -> ObjectId:
         try:
             self._layout.add_folder(name, self.delimiter)
-        except (FileExistsError, FileNotFoundError) as exc:
+        except OSError as exc:
+            # exists, a superior folder is missing, or the filesystem
+            # refuses the name (e.g. too long)
             raise ValueError(name) from exc
         path = self._layout.get_path(name, self.delimiter)
         async with UidList.with_init(path) as uidl:
@@ -597,6 +599,9 @@ class MailboxSet(MailboxSetInterface[MailboxData]):
         except OSError as exc:
             if exc.errno == errno.ENOTEMPTY:
                 raise MailboxHasChildren(name) from exc
+            elif exc.errno in (errno.ENAMETOOLONG, errno.ENOTDIR):
+                # a name the filesystem cannot hold does not exist
+                raise KeyError(name) from exc
             raise exc
 
     async def rename_mailbox(self, before: str, after: str) -> None:
